@@ -24,7 +24,7 @@ type scopeSpaceDef struct {
 	minNodes int
 	maxNodes int
 	others   []map[string]string
-	stride   int64 // 1 = every program
+	limit    int64 // >1: only the first limit programs of the range
 }
 
 func (d scopeSpaceDef) count() int64 {
@@ -33,6 +33,9 @@ func (d scopeSpaceDef) count() int64 {
 		lo = d.alpha.Count(d.minNodes - 1)
 	}
 	n := d.alpha.Count(d.maxNodes) - lo
+	if d.limit > 1 && n > d.limit {
+		n = d.limit
+	}
 	return n * int64(len(d.others))
 }
 
@@ -153,7 +156,8 @@ func c05Space(d scopeSpaceDef) *core.Space {
 					}
 					sig := fmt.Sprintf("%s:%s-%s:bound-to-%s:in-%s", kind, o.Kind, end, declKind(c, o.Decl), lastSeg(c.occContext(o)))
 					r.Outcome(sig)
-					r.Fail(d.name, i, sig, fmt.Sprintf("%v|%s|%d:%d", c.Files, o.Name, or.Start.Line, ch), map[string]interface{}{
+					core := fmt.Sprintf("query %s end=%s | expected %s | server %s", lineAt(c.Text, or), end, c.frLines(want), c.frLines(got))
+					r.Fail(d.name, i, sig, core, map[string]interface{}{"failure_core": core,
 						"case": caseDesc(c), "position": fmt.Sprintf("%d:%d", or.Start.Line, ch), "identifier": o.Name,
 						"expected_one_of": frSet(want), "server": frSet(got), "context": c.occContext(o)})
 				}
